@@ -821,6 +821,9 @@ theorem step_other (c : Conn) (k : Call) (h1 : ∀ n, k ≠ .read n) (h2 : ∀ i
     by_cases hcb : c.closedBit = true
     · simp [hcb]
     · simp only [hcb, Bool.false_eq_true, if_false]
+      by_cases hfl : c.inflight.isSome = true
+      · simp [hfl]
+      simp only [hfl, Bool.false_eq_true, if_false]
       generalize closeSend { c with closedBit := true } = r at hcs
       obtain ⟨c2, e2⟩ := r
       simp only at hcs ⊢
@@ -830,10 +833,27 @@ theorem step_other (c : Conn) (k : Call) (h1 : ∀ n, k ≠ .read n) (h2 : ∀ i
     simp only [step, Model.ConnAPI.closeWrite]
     by_cases hd : c.hsDone = true
     · simp only [hd, Bool.not_true, Bool.false_eq_true, if_false]
+      by_cases hfl : (c.inflight.isSome && !c.cnSent) = true
+      · simp only [hfl, if_true]; simp
+      simp only [hfl, Bool.false_eq_true, if_false]
       generalize closeNotify c = r at hcn
       obtain ⟨c2, e2⟩ := r
       cases e2 <;> exact ⟨hcn.1, hcn.2.1, hcn.2.2.1, fun h => by rw [hcn.2.2.2]; exact h⟩
     · simp [hd]
+  | writeStart d =>
+    obtain ⟨a, b, c', d'⟩ := handshake_eofframe c false
+    simp only [step, Model.ConnAPI.writeStart]
+    generalize handshake c false = r at a b c' d'
+    obtain ⟨c1, e1⟩ := r
+    simp only at a b c' d'
+    repeat' split
+    all_goals first
+      | exact ⟨rfl, rfl, rfl, fun h => h⟩
+      | (simp_all; try (intro h; exact (d' h).1))
+  | writeEnd =>
+    simp only [step, Model.ConnAPI.writeEnd]
+    repeat' split
+    all_goals exact ⟨rfl, rfl, rfl, fun h => h⟩
   | write d =>
     obtain ⟨a, b, c', d'⟩ := handshake_eofframe c false
     simp only [step, Model.ConnAPI.write]
